@@ -102,51 +102,7 @@ class C16:
         return out
 
 
-class C16Deep:
-    """well-formed documents nested n levels deep, each decoded in a process of its own: the grammar (and the model
-    decoder: DeepProofs.nested_accepted) accepts every depth; the recursive implementation must accept, and must not die"""
-    id = "C16"
-    harness_sub = "bc"
-    harness_isolate = True
-    harness_timeout = 600
-    coq_timeout = 300
-    allowed_axioms = []
-    model_targets = ["Pack.vo", "Corr/Deep.vo"]
-    corr_name = "BDecoder::from_array on deeply nested documents (one process per case)"
-    coq_header = "From Rdest Require Import Base Corr.Deep.\nOpen Scope N_scope.\nDefinition codes := codes.\n"
-    classes = {2: "stack-exhaustion-on-deep-nesting"}
-    rule = ""
-    assumptions = []
-
-    def mk(self, depth, shape):
-        if shape == "list":
-            doc = b"l" * depth + b"e" * depth
-        elif shape == "dict":
-            doc = b"d1:a" * depth + b"le" + b"e" * depth
-        else:   # alternating
-            doc = b"ld1:a" * (depth // 2) + b"le" + b"ee" * (depth // 2)
-        return Case("dec %s" % doc.hex(), "deep-%s" % shape, {"depth": depth, "shape": shape})
-
-    def coq_case(self, c, out):
-        out = out.strip()
-        outcome = 2 if out == "CRASH" else (0 if out.startswith("OK") else 1)
-        return "CDeep %d %d" % (c.info["depth"], outcome)
-
-    def model_term(self, c):
-        return "(%s)" % c.term
-
-    def corpus(self):
-        # 400000 levels: the witness of the known finding (the process dies: native stack exhausted)
-        return [self.mk(10, "list"), self.mk(300, "dict"), self.mk(900, "list"), self.mk(400000, "list")]
-
-    def gen(self, rng, tier):
-        k = {"quick": 12, "thorough": 60, "search": 30}.get(tier, 12)
-        cases = []
-        for _ in range(k):
-            depth = rng.choice([1, 2, 17, 100, 500, 999, 2000, 5000, 20000, 100000])
-            cases.append(self.mk(depth, rng.choice(["list", "dict", "alt"])))
-        return cases
-
+from deepbase import DeepPart
 
 PROP = C16()
-PROP.parts = [PROP, C16Deep()]
+PROP.parts = [PROP, DeepPart("C16", "bc", "dec", b"", b"", "BDecoder::from_array")]
